@@ -356,6 +356,59 @@ fn load(root: &Path, rel: &str) -> R<Src> {
     Ok(Src { file, path: rel.to_string() })
 }
 
+/// Inventory of process-wide state in the non-test code of the three crates: every `static` item, every
+/// `thread_local!` / `lazy_static!` block, and every call of `umask` (which changes the creation mode of all threads).
+/// The models treat one file's copy as independent of every other file's: that is only sound if nothing is carried
+/// from file to file through such state.
+fn process_wide_state(root: &Path) -> R<String> {
+    fn rs_files(dir: &Path, out: &mut Vec<std::path::PathBuf>) {
+        if let Ok(rd) = std::fs::read_dir(dir) {
+            let mut es: Vec<_> = rd.filter_map(|e| e.ok()).map(|e| e.path()).collect();
+            es.sort();
+            for p in es {
+                if p.is_dir() { rs_files(&p, out); } else if p.extension().map(|x| x == "rs").unwrap_or(false) { out.push(p); }
+            }
+        }
+    }
+    struct V { file: String, statics: Vec<String>, tls: Vec<String>, umask: u64, in_test: u32 }
+    impl<'ast> Visit<'ast> for V {
+        fn visit_item_mod(&mut self, m: &'ast syn::ItemMod) {
+            let is_test = m.attrs.iter().any(|a| quote::ToTokens::to_token_stream(a).to_string().replace(' ', "").contains("cfg(test)"));
+            if is_test { return; }
+            syn::visit::visit_item_mod(self, m)
+        }
+        fn visit_item_static(&mut self, s: &'ast syn::ItemStatic) {
+            self.statics.push(format!("{}::{}", self.file, s.ident));
+            syn::visit::visit_item_static(self, s)
+        }
+        fn visit_macro(&mut self, m: &'ast syn::Macro) {
+            let n = m.path.segments.last().map(|x| x.ident.to_string()).unwrap_or_default();
+            if n == "thread_local" || n == "lazy_static" { self.tls.push(format!("{}::{}!", self.file, n)); }
+            let _ = self.in_test;
+        }
+        fn visit_expr_call(&mut self, c: &'ast syn::ExprCall) {
+            let n = quote::ToTokens::to_token_stream(&c.func).to_string().replace(' ', "");
+            if n == "umask" || n.ends_with("::umask") { self.umask += 1; }
+            syn::visit::visit_expr_call(self, c)
+        }
+    }
+    let mut v = V { file: String::new(), statics: vec![], tls: vec![], umask: 0, in_test: 0 };
+    for d in ["src", "libxcp/src", "libfs/src"] {
+        let mut files = vec![];
+        rs_files(&root.join(d), &mut files);
+        for f in files {
+            let rel = f.strip_prefix(root).map(|x| x.display().to_string()).unwrap_or_default();
+            let txt = std::fs::read_to_string(&f).map_err(|e| format!("{}: {}", rel, e))?;
+            let file = syn::parse_file(&txt).map_err(|e| format!("{}: {}", rel, e))?;
+            v.file = rel;
+            v.visit_file(&file);
+        }
+    }
+    let q = |l: &Vec<String>| format!("[{}]", l.iter().map(|x| format!("\"{}\"", x)).collect::<Vec<_>>().join("; "));
+    Ok(format!("(* process-wide state in the non-test code of src/, libxcp/src/, libfs/src/: `static` items, thread_local!/lazy_static! blocks, calls of umask *)\nDefinition x_static_items : list string := {}.\nDefinition x_thread_locals : list string := {}.\nDefinition x_umask_calls : N := {}.\n",
+               q(&v.statics), q(&v.tls), v.umask))
+}
+
 fn find_fn<'a>(src: &'a Src, name: &str) -> R<(&'a syn::Signature, &'a Block)> {
     for it in &src.file.items {
         match it {
@@ -1846,6 +1899,7 @@ fn main() {
         }
         Err(e) => emit("options.rs", Err(e), &mut out),
     }
+    emit("process-wide state", process_wide_state(root), &mut out);
     match load(root, "libxcp/src/config.rs") {
         Ok(src) => emit("Config::num_workers", num_workers(&src), &mut out),
         Err(e) => emit("config.rs", Err(e), &mut out),
